@@ -363,13 +363,21 @@ def check_uri_string(s):
     # name server path
     try:
         ns = nameserver.NameServer()
-        ns.register("n1", u)
-        ns.register("n2", s)
-        ns.register("n3", t)
+        # every name first holds ANOTHER uri (same tags) and is asked for through all retrieval paths; then the uri under test is
+        # registered over it: what the name server hands out afterwards must be the uri stored last
         for n in ("n1", "n2", "n3"):
-            back = ns.lookup(n)
-            if _fields(back) != _fields(u) or not (back == u):
-                V("nameserver-differs", "NameServer lookup(%s) gives %r, registered %r" % (n, _fields(back), _fields(u)))
+            ns.register(n, "PYRO:decoy@decoy.host:1", metadata={"tag"})
+            ns.lookup(n), ns.list(prefix=n), ns.yplookup(meta_all={"tag"}, return_metadata=False), ns.yplookup(meta_any=["tag"])
+        ns.register("n1", u, metadata={"tag"})
+        ns.register("n2", s, metadata={"tag"})
+        ns.register("n3", t, metadata={"tag"})
+        for n in ("n1", "n2", "n3"):
+            for how, back in (("lookup", ns.lookup(n)), ("list", ns.list(prefix=n).get(n)), ("yplookup", ns.yplookup(meta_all={"tag"}, return_metadata=False).get(n)),
+                              ("yplookup+metadata", ns.yplookup(meta_any=["tag"]).get(n, (None,))[0])):
+                back = core.URI(back) if isinstance(back, str) else back
+                if back is None or _fields(back) != _fields(u) or not (back == u):
+                    V("nameserver-differs", "NameServer %s(%s) gives %r, registered %r" % (how, n, back if back is None else _fields(back), _fields(u)))
+                    break
     except Exception as x:
         V("nameserver-raises", "name server path raised %r" % (x,))
     return viols, True
